@@ -593,7 +593,13 @@ async fn wait_for_pipeline_processes_and_update_status(
         crate::verif::pause("pipeline.before_wait");
     }
 
+    let stages_total = pipeline.seq.len();
+    let last_stage_in_current_shell = shell.options().run_last_pipeline_cmd_in_current_shell
+        && !shell.options().enable_job_control;
+    let mut stage_index = 0;
+
     while let Some(child) = process_spawn_results.pop_front() {
+        stage_index += 1;
         let wait_result = if !stopped_children.is_empty() {
             child.poll().await?
         } else {
@@ -603,6 +609,13 @@ async fn wait_for_pipeline_processes_and_update_status(
         match wait_result {
             ExecutionWaitResult::Completed(current_result) => {
                 result = current_result;
+
+                // A stage that ran in its own subshell hands back a status, nothing more:
+                // its `exit`, `return`, `break` or `continue` ended that subshell only.
+                if stages_total > 1 && !(stage_index == stages_total && last_stage_in_current_shell)
+                {
+                    result.next_control_flow = ExecutionControlFlow::Normal;
+                }
                 shell.set_last_exit_status(result.exit_code.into());
                 shell
                     .last_pipeline_statuses_mut()
